@@ -21,6 +21,7 @@ def run(ctx, rep):
         slotfsm.s3(prog, rep, "C02", ctx.table("who_may_call.json"), tag)
         slotfsm.s4(prog, rep, "C02", tag)
         slotfsm.s5(prog, rep, "C02", tag)
+        slotfsm.s5_handle_escape(prog, rep, "C02", tag)
     if ctx.tier == "thorough":
         from .. import witness
 
